@@ -84,7 +84,11 @@ TraceEndPkg ==
                       { x \in PayloadClauses(f, cc, Tree, mm, evs)[1] \cup SlotClauses(f, cc, evs) \cup MetaClauses(f, cc, evs) : ~IsDoc(x) }
          c13 == IF ovCase /\ built /\ expect /\ reqOf(c) # {} /\ (reqOf(c) \ reqOf(C)) # {}
                 THEN {"C13.package_states_effective_settings_of_its_format"} ELSE {}
-         all == resultCl \cup pay[1] \cup pay[2] \cup other \cup c13
+         c13pk == IF built /\ expect /\ ForeignLeak(f, c, Tree, m, evs) THEN {"C13.per_packager_entries_stay_in_theirs"} ELSE {}
+         \* C05 at the level of a packaging: a content list that collides (for this format, with what the packager itself
+         \* adds - the Debian changelog - included) is rejected, not built
+         c05 == IF built /\ st = "collision" THEN {"C05.collision_rejected_when_packaging"} ELSE {}
+         all == resultCl \cup pay[1] \cup pay[2] \cup other \cup c13 \cup c13pk \cup c05
      IN /\ viol' = AddViol({ <<cid, pkgLine, n>> : n \in { x \in all : ~IsDoc(x) } })
         /\ drift' = AddDrift({ <<cid, pkgLine, n>> : n \in { x \in all : IsDoc(x) } })
         /\ merr' = IF expect /\ ~PlanInvOf(CtxOf(c, Tree, f), m) THEN merr \cup {<<cid, pkgLine, "PlanInv">>} ELSE merr
